@@ -177,6 +177,8 @@ def allowed_nonzero(ll, good, nl):
 def body(case):
     from pydl.pydlspec2d.spec2d import combine1fiber
     ll, fl, iv, nl = build(case)
+    if case.get('arms'):
+        case = dict(case, og='arms')           # the output grid is the one that runs over all arms, whatever `og` says
     kwargs = dict(aesthetics=case['aesthetics'])
     with_ivar = case['with_ivar']
 
